@@ -35,6 +35,7 @@ try:
         t0 = time.time()
         env = dict(os.environ, VERIF_SEED=a.seed)
         if wt: env["VERIF_REPO"] = wt
+        env["VERIF_EVIDENCE_DIR"] = os.path.join(d, "run")   # evidence + replay of the seeded run (not committed)
         rr = subprocess.run([sys.executable, os.path.join(os.path.dirname(__file__), "check.py"), p, "--tier", a.tier],
                             capture_output=True, text=True, cwd=os.path.dirname(os.path.dirname(__file__)), env=env)
         lines = [l for l in rr.stdout.splitlines() if l.startswith("VIOLATION") or l.startswith("KNOWN-FINDING")]
